@@ -50,6 +50,22 @@ func validCase(c *hc.Ctx, grids []*Grid, maxW int64) (*Grid, [][]Pt, string) {
 	}
 }
 
+// collapsingCase: a valid polygon with many sub-pixel teeth, requested at a coarse tile matrix as well.
+func collapsingCase(c *hc.Ctx, grids []*Grid) (*Grid, [][]Pt, string) {
+	for try := 0; ; try++ {
+		g := pickGrid(c, grids)
+		w := randWindow(c.Rng, g, 6)
+		ring := genDenseComb(c.Rng, w)
+		poly := [][]Pt{ring}
+		if g.inGrid(poly) && validPolygon(poly) {
+			return g, poly, "dense comb"
+		}
+		if try > 200 {
+			return validCase(c, grids, 8)
+		}
+	}
+}
+
 func rawCase(c *hc.Ctx, grids []*Grid, maxW int64) (*Grid, [][]Pt, string) {
 	for {
 		g := pickGrid(c, grids)
@@ -98,45 +114,53 @@ func runC01(c *hc.Ctx) error {
 	c.Sum.Oracle = "exact integer test: no two edges of the geometries returned for one tile matrix cross in their interiors (all edge pairs)"
 	c.Sum.Partial = "the global implication 'valid input => no crossing output' (Guibas-Marimont deformation argument) is not a theorem; supporting lemmas are proved, the implication is decided by this search"
 	grids := syntheticGrids()
+	if err := runCorpus(c, evalC01); err != nil {
+		return err
+	}
 	n := c.N(1500, 120000)
 	if c.Search {
 		n *= 10
 	}
 	for i := 0; i < n; i++ {
 		g, poly, kind := validCase(c, grids, 12)
+		if i%4 == 3 { // collapse-heavy shapes: many thin teeth in few pixels (hunting F5-like inventions)
+			g, poly, kind = collapsingCase(c, grids)
+		}
 		ids := randIDs(c.Rng, g)
 		cfg := randCfg(c.Rng)
 		cfg.IgnoreOutsideGrid = false
-		r := runSnap(g, poly, ids, cfg, watchdog)
-		c.Sum.Evaluations++
-		c.Count("kind " + kind)
-		if collapses(g, poly, r) {
-			c.Nontrivial(keyOf(g, poly, ids, cfg))
-		}
-		if unexpectedPanic(c, g, poly, ids, cfg, r) {
-			continue
-		}
-		for _, id := range sortedIDs(r.ByID) {
-			es := polysEdges(r.ByID[id])
-			for a := 0; a < len(es); a++ {
-				for b := a + 1; b < len(es); b++ {
-					if properCross(es[a].A, es[a].B, es[b].A, es[b].B) {
-						rt, _ := implRouting(g, poly, g.Level(id))
-						v := hc.Violation{What: fmt.Sprintf("two output edges cross at tile matrix %d", id), Input: caseJSON(g, poly, ids, cfg, r), Observed: []Edge{es[a], es[b]}}
-						if f5Attributable(rt, es[a], es[b]) {
-							v.KnownFinding, v.What = "F5", f5What
-						}
-						c.Violate(v)
+		evalC01(c, g, poly, kind, ids, cfg)
+	}
+	return nil
+}
+
+func evalC01(c *hc.Ctx, g *Grid, poly [][]Pt, kind string, ids []int, cfg snap.Config) {
+	r := runSnap(g, poly, ids, cfg, watchdog)
+	c.Sum.Evaluations++
+	c.Count("kind " + kind)
+	if collapses(g, poly, r) {
+		c.Nontrivial(keyOf(g, poly, ids, cfg))
+	}
+	if unexpectedPanic(c, g, poly, ids, cfg, r) {
+		return
+	}
+	for _, id := range sortedIDs(r.ByID) {
+		es := polysEdges(r.ByID[id])
+		for a := 0; a < len(es); a++ {
+			for b := a + 1; b < len(es); b++ {
+				if properCross(es[a].A, es[a].B, es[b].A, es[b].B) {
+					rt, _ := implRouting(g, poly, g.Level(id))
+					v := hc.Violation{What: fmt.Sprintf("two output edges cross at tile matrix %d", id), Input: caseJSON(g, poly, ids, cfg, r), Observed: []Edge{es[a], es[b]}}
+					if f5Attributable(rt, es[a], es[b]) {
+						v.KnownFinding, v.What = "F5", f5What
 					}
+					c.Violate(v)
 				}
 			}
 		}
-		c.Case(snapCaseTerm(g, poly, ids, cfg, r), caseJSON(g, poly, ids, cfg, r))
-		if i < 3 {
-			c.Sample(caseJSON(g, poly, ids, cfg, r))
-		}
 	}
-	return nil
+	c.Case(snapCaseTerm(g, poly, ids, cfg, r), caseJSON(g, poly, ids, cfg, r))
+	c.Sample(caseJSON(g, poly, ids, cfg, r))
 }
 
 // ---------------------------------------------------------------------------------------------------
@@ -218,84 +242,91 @@ func runC04(c *hc.Ctx) error {
 	c.Sum.Oracle = "(1) every output vertex is the pixel centre of an input vertex; (2) every sampled point of every output edge is within half a pixel (Chebyshev, exact) of the input boundary; (3) sample locations farther than one pixel from the input boundary are covered by the output iff covered by the input"
 	c.Sum.Partial = "clause 3 (coverage) is not a theorem (needs the planarity argument); clause 2 is a theorem for routed edges only; both are decided here by search"
 	grids := syntheticGrids()
+	if err := runCorpus(c, evalC04); err != nil {
+		return err
+	}
 	n := c.N(1200, 80000)
 	if c.Search {
 		n *= 10
 	}
 	for i := 0; i < n; i++ {
 		g, poly, kind := validCase(c, grids, 12)
+		if i%4 == 3 {
+			g, poly, kind = collapsingCase(c, grids)
+		}
 		ids := randIDs(c.Rng, g)
 		cfg := randCfg(c.Rng)
 		cfg.IgnoreOutsideGrid = false
-		r := runSnap(g, poly, ids, cfg, watchdog)
-		c.Sum.Evaluations++
-		c.Count("kind " + kind)
-		if collapses(g, poly, r) {
-			c.Nontrivial(keyOf(g, poly, ids, cfg))
-		}
-		if unexpectedPanic(c, g, poly, ids, cfg, r) {
-			continue
-		}
-		for _, id := range sortedIDs(r.ByID) {
-			level := g.Level(id)
-			span := g.Span(level)
-			centres := map[Pt]bool{}
-			for _, ring := range poly {
-				for _, v := range ring {
-					centres[g.centre(level, g.pixelOf(level, v))] = true
-				}
-			}
-			var rt *Routing
-			attribute := func(v hc.Violation, es ...Edge) {
-				if rt == nil {
-					rt, _ = implRouting(g, poly, level)
-				}
-				if f5Attributable(rt, es...) {
-					v.KnownFinding, v.What = "F5", f5What
-				}
-				c.Violate(v)
-			}
-			for _, pl := range r.ByID[id] {
-				for _, ring := range pl {
-					for _, v := range ring {
-						if !centres[v] {
-							c.Violate(hc.Violation{What: fmt.Sprintf("output vertex is not the pixel centre of an input vertex (tile matrix %d)", id), Input: caseJSON(g, poly, ids, cfg, r), Observed: v})
-						}
-					}
-					for _, e := range ringEdges(ring) {
-						for k := int64(0); k <= 8; k++ {
-							// sample point in doubled*4 coordinates to stay integral: scale everything by 8
-							p := Pt{e.A[0]*(8-k) + e.B[0]*k, e.A[1]*(8-k) + e.B[1]*k}
-							if !nearBoundary(scalePoly(poly, 8), p, 8*(span/2)) {
-								attribute(hc.Violation{What: fmt.Sprintf("a point of an output edge is farther than half a pixel from the input boundary (tile matrix %d)", id), Input: caseJSON(g, poly, ids, cfg, r), Observed: map[string]any{"edge": e, "k_of_8": k}}, e)
-								break
-							}
-						}
-					}
-				}
-			}
-			// coverage
-			minx, miny, maxx, maxy := bbox(poly)
-			var bad []Pt
-			for s := 0; s < 48; s++ {
-				p := Pt{minx - span + c.Rng.Int63n(maxx-minx+2*span+1), miny - span + c.Rng.Int63n(maxy-miny+2*span+1)}
-				if nearBoundary(poly, p, span) {
-					continue
-				}
-				if coveredInput(poly, p) != coveredOutput(r.ByID[id], p) {
-					bad = append(bad, p)
-				}
-			}
-			if len(bad) > 0 {
-				attribute(hc.Violation{What: fmt.Sprintf("location farther than one pixel from the boundary changed coverage (tile matrix %d)", id), Input: caseJSON(g, poly, ids, cfg, r), Observed: bad}, polysEdges(r.ByID[id])...)
-			}
-		}
-		c.Case(snapCaseTerm(g, poly, ids, cfg, r), caseJSON(g, poly, ids, cfg, r))
-		if i < 3 {
-			c.Sample(caseJSON(g, poly, ids, cfg, r))
-		}
+		evalC04(c, g, poly, kind, ids, cfg)
 	}
 	return nil
+}
+
+func evalC04(c *hc.Ctx, g *Grid, poly [][]Pt, kind string, ids []int, cfg snap.Config) {
+	r := runSnap(g, poly, ids, cfg, watchdog)
+	c.Sum.Evaluations++
+	c.Count("kind " + kind)
+	if collapses(g, poly, r) {
+		c.Nontrivial(keyOf(g, poly, ids, cfg))
+	}
+	if unexpectedPanic(c, g, poly, ids, cfg, r) {
+		return
+	}
+	for _, id := range sortedIDs(r.ByID) {
+		level := g.Level(id)
+		span := g.Span(level)
+		centres := map[Pt]bool{}
+		for _, ring := range poly {
+			for _, v := range ring {
+				centres[g.centre(level, g.pixelOf(level, v))] = true
+			}
+		}
+		var rt *Routing
+		attribute := func(v hc.Violation, es ...Edge) {
+			if rt == nil {
+				rt, _ = implRouting(g, poly, level)
+			}
+			if f5Attributable(rt, es...) {
+				v.KnownFinding, v.What = "F5", f5What
+			}
+			c.Violate(v)
+		}
+		scaled := scalePoly(poly, 8)
+		for _, pl := range r.ByID[id] {
+			for _, ring := range pl {
+				for _, v := range ring {
+					if !centres[v] {
+						c.Violate(hc.Violation{What: fmt.Sprintf("output vertex is not the pixel centre of an input vertex (tile matrix %d)", id), Input: caseJSON(g, poly, ids, cfg, r), Observed: v})
+					}
+				}
+				for _, e := range ringEdges(ring) {
+					for k := int64(0); k <= 8; k++ {
+						p := Pt{e.A[0]*(8-k) + e.B[0]*k, e.A[1]*(8-k) + e.B[1]*k} // coordinates scaled by 8
+						if !nearBoundary(scaled, p, 8*(span/2)) {
+							attribute(hc.Violation{What: fmt.Sprintf("a point of an output edge is farther than half a pixel from the input boundary (tile matrix %d)", id), Input: caseJSON(g, poly, ids, cfg, r), Observed: map[string]any{"edge": e, "k_of_8": k}}, e)
+							break
+						}
+					}
+				}
+			}
+		}
+		minx, miny, maxx, maxy := bbox(poly)
+		var bad []Pt
+		for s := 0; s < 48; s++ {
+			p := Pt{minx - span + c.Rng.Int63n(maxx-minx+2*span+1), miny - span + c.Rng.Int63n(maxy-miny+2*span+1)}
+			if nearBoundary(poly, p, span) {
+				continue
+			}
+			if coveredInput(poly, p) != coveredOutput(r.ByID[id], p) {
+				bad = append(bad, p)
+			}
+		}
+		if len(bad) > 0 {
+			attribute(hc.Violation{What: fmt.Sprintf("location farther than one pixel from the boundary changed coverage (tile matrix %d)", id), Input: caseJSON(g, poly, ids, cfg, r), Observed: bad}, polysEdges(r.ByID[id])...)
+		}
+	}
+	c.Case(snapCaseTerm(g, poly, ids, cfg, r), caseJSON(g, poly, ids, cfg, r))
+	c.Sample(caseJSON(g, poly, ids, cfg, r))
 }
 
 func scalePoly(poly [][]Pt, k int64) [][]Pt {
